@@ -27,6 +27,8 @@ def main():
                 break
         if m.get("caught_note"):
             how = m["caught_note"]
+        if m.get("obsolete"):
+            how = (how + " — " if how else "") + "OBSOLETE: " + m["obsolete"]
         rows.append("| %s | %s | %s | %s | %s |" % (os.path.basename(d), short(m.get("summary"), 260), short(m.get("needs_to_manifest"), 200),
                                                   ", ".join(caught) if caught else "**missed**", short(how, 220)))
     table = ["| seed | change | needs | caught by | how it is reported |", "|---|---|---|---|---|"] + rows
